@@ -19,7 +19,7 @@ pub fn check_doc(spec: &DocSpec) -> Result<bool, (String, String)> {
         Ok(Err(e)) => return Err(("save-ok".into(), format!("save to a Vec failed: {}", e))),
         Ok(Ok(())) => {}
     }
-    verify_file(&out, 0, &build(spec), spec.xref_stream).map_err(|e| ("strict-reader".to_string(), e))?;
+    verify_file(&out, 0, &build(spec), spec.xref_stream, 1).map_err(|e| ("strict-reader".to_string(), e))?;
     // the same document through a sink that accepts at most 7 bytes per call (a pipe, a socket): the statement is about
     // the file that reaches the sink, whatever the sink's write granularity, so the strict reader must accept that file too
     let mut d2 = build(spec);
@@ -29,13 +29,17 @@ pub fn check_doc(spec: &DocSpec) -> Result<bool, (String, String)> {
         Ok(Err(e)) => return Err(("save-ok".into(), format!("save to a short-writing sink failed: {}", e))),
         Ok(Ok(())) => {}
     }
-    verify_file(&sink.delivered, 0, &build(spec), spec.xref_stream).map_err(|e| ("strict-reader-short-writes".to_string(), format!("file delivered to a sink taking 7 bytes per call: {}", e)))?;
+    verify_file(&sink.delivered, 0, &build(spec), spec.xref_stream, 1).map_err(|e| ("strict-reader-short-writes".to_string(), format!("file delivered to a sink taking 7 bytes per call: {}", e)))?;
     Ok(!spec.objects.is_empty())
 }
 
-/// strict reading of the revision starting at `start` must give back exactly the objects of `orig` (minus bookkeeping objects)
-pub fn verify_file(file: &[u8], start: usize, orig: &Document, want_stream: bool) -> Result<(), String> {
+/// strict reading of the revision starting at `start` must give back exactly the objects of `orig` (minus bookkeeping objects);
+/// `sections`: the number of cross-reference sections a reader that starts at startxref and follows Prev must pass through
+/// (1 for a plain save, the number of revisions of the base + 1 for an incremental save)
+pub fn verify_file(file: &[u8], start: usize, orig: &Document, want_stream: bool, sections: usize) -> Result<(), String> {
     let rec = strict::read_revision(file, start)?;
+    let found = follow_chain(file, start, &rec.trailer)?;
+    if found != sections { return Err(format!("startxref and the Prev entries lead through {} cross-reference section(s), the file was written as {} revision(s)", found, sections)); }
     if rec.xref_is_stream != want_stream { return Err("wrong cross-reference format".into()); }
     if rec.version != orig.version { return Err(format!("version {:?} != {:?}", rec.version, orig.version)); }
     let expected: Vec<(&(u32, u16), &Object)> = orig.objects.iter().filter(|(_, o)| !is_bookkeeping_object(o)).collect();
@@ -55,14 +59,177 @@ pub fn verify_file(file: &[u8], start: usize, orig: &Document, want_stream: bool
     if !dict_eq(&orig.trailer, &rec.trailer, BOOKKEEPING) { return Err(format!("trailer differs: {:?} vs {:?}", orig.trailer, rec.trailer)); }
     let size = rec.trailer.get(b"Size").and_then(|o| o.as_i64()).unwrap_or(-1);
     if size <= orig.max_id as i64 { return Err(format!("Size {} does not exceed max_id {}", size, orig.max_id)); }
+    if let Some(((n, g), _)) = orig.objects.iter().filter(|(_, o)| !is_bookkeeping_object(o)).next_back() {
+        if size <= *n as i64 { return Err(format!("Size {} does not exceed the number of the saved object {} {}", size, n, g)); }
+    }
     Ok(())
 }
 
-/// incremental save on top of `base` bytes: prefix preserved, appended revision strictly valid
-pub fn check_incremental(spec: &DocSpec, base_spec: &DocSpec, strip_newline: bool) -> Result<bool, (String, String)> {
+// ---------------------------------------------------------------------------------------------------------------------
+// The chain of cross-reference sections (ISO 32000-1 7.5.5, 7.5.6, 7.5.8.4).
+//
+// A strict reader starts at the offset after startxref and, as long as the trailer dictionary (or cross-reference stream
+// dictionary) it finds there has a Prev entry, goes on to the offset Prev gives, where it must again find a cross-reference
+// section; an XRefStm entry must likewise lead to a cross-reference stream.  `strict::read_revision` reads the newest
+// section and accounts for every byte of the newest revision; what is checked here is that the entries that lead OUT of
+// that section lead to cross-reference sections of the earlier revisions, the first of them to the very section the
+// previous file's startxref names, and that the chain ends.  A plain save has no earlier revision, so its trailer cannot
+// have a Prev at all.  Written from the standard; shares nothing with lopdf's reader but `strict::P`, the tokenizer of
+// the strict reader.
+// ---------------------------------------------------------------------------------------------------------------------
+
+fn eol(p: &mut strict::P) -> Result<(), String> {
+    match (p.peek(), p.b.get(p.i + 1)) {
+        (Some(b'\r'), Some(b'\n')) => { p.i += 2; Ok(()) }
+        (Some(b'\n'), _) | (Some(b'\r'), _) => { p.i += 1; Ok(()) }
+        _ => Err(format!("end of line expected at offset {}", p.i)),
+    }
+}
+
+/// the dictionary of the cross-reference section that starts exactly at `pos` (trailer dictionary of a table, or the
+/// dictionary of a cross-reference stream) and whether it is a stream
+pub fn section_at(file: &[u8], pos: usize) -> Result<(Dictionary, bool), String> {
+    let rest = file.get(pos..).ok_or("the offset lies beyond the end of the file")?;
+    let mut p = strict::P::new(file, pos);
+    if rest.starts_with(b"xref") && matches!(rest.get(4), Some(b'\n') | Some(b'\r')) {
+        p.i += 4;
+        eol(&mut p)?;
+        loop {
+            if file[p.i..].starts_with(b"trailer") { p.i += 7; break; }
+            p.uint()?;
+            p.eat(b" ")?;
+            let count = p.uint()?;
+            if p.peek() == Some(b' ') { p.i += 1; }
+            eol(&mut p)?;
+            for _ in 0..count {
+                let e = file.get(p.i..p.i + 20).ok_or("truncated cross-reference entry")?;
+                let ok = e[..10].iter().all(|c| c.is_ascii_digit()) && e[10] == b' ' && e[11..16].iter().all(|c| c.is_ascii_digit()) && e[16] == b' '
+                    && (e[17] == b'n' || e[17] == b'f') && matches!(&e[18..], b" \n" | b" \r" | b"\r\n");
+                if !ok { return Err(format!("the entry at offset {} is not a well-formed 20-byte entry", p.i)); }
+                p.i += 20;
+            }
+        }
+        p.skip_ws();
+        match p.object(0)? { Object::Dictionary(d) => Ok((d, false)), _ => Err("the keyword trailer is not followed by a dictionary".into()) }
+    } else {
+        p.uint().map_err(|_| "neither the keyword xref nor an object header".to_string())?;
+        p.eat(b" ")?;
+        p.uint()?;
+        p.eat(b" obj")?;
+        p.skip_ws();
+        let d = match p.object(0)? { Object::Dictionary(d) => d, _ => return Err("the object is not a stream".into()) };
+        p.skip_ws();
+        p.eat(b"stream").map_err(|_| "the object is not a stream".to_string())?;
+        if d.get(b"Type").and_then(|o| o.as_name()).ok() != Some(b"XRef".as_slice()) { return Err("the stream is not of Type XRef".into()); }
+        Ok((d, true))
+    }
+}
+
+/// the number after the last `startxref` keyword of `file` (which must end `startxref EOL digits EOL %%EOF` and optional white space)
+fn startxref_of(file: &[u8]) -> Result<usize, String> {
+    let mut end = file.len();
+    while end > 0 && matches!(file[end - 1], b'\n' | b'\r' | b' ') { end -= 1; }
+    if !file[..end].ends_with(b"%%EOF") { return Err("the bytes do not end with %%EOF".into()); }
+    end -= 5;
+    while end > 0 && matches!(file[end - 1], b'\n' | b'\r') { end -= 1; }
+    let mut ds = end;
+    while ds > 0 && file[ds - 1].is_ascii_digit() { ds -= 1; }
+    if ds == end { return Err("no offset before %%EOF".into()); }
+    let mut k = ds;
+    while k > 0 && matches!(file[k - 1], b'\n' | b'\r') { k -= 1; }
+    if k == ds || !file[..k].ends_with(b"startxref") { return Err("no startxref keyword before the offset".into()); }
+    std::str::from_utf8(&file[ds..end]).unwrap().parse().map_err(|e| format!("startxref: {}", e))
+}
+
+fn found_at(file: &[u8], pos: usize) -> String {
+    match file.get(pos..) { Some(r) => format!("{:?}", String::from_utf8_lossy(&r[..r.len().min(24)])), None => "nothing".into() }
+}
+
+/// From the newest cross-reference section (dictionary `newest`, belonging to the revision that starts at `rev_start` and ends
+/// with the file) follow Prev until a section has none; the number of sections passed through, the newest included.
+pub fn follow_chain(file: &[u8], rev_start: usize, newest: &Dictionary) -> Result<usize, String> {
+    let offset_of = |d: &Dictionary, key: &[u8]| -> Result<Option<usize>, String> {
+        match d.get(key) {
+            Err(_) => Ok(None),
+            Ok(Object::Integer(n)) if *n >= 0 => Ok(Some(*n as usize)),
+            Ok(o) => Err(format!("{} is {:?}, not a direct non-negative integer", String::from_utf8_lossy(key), o)),
+        }
+    };
+    let mut at = startxref_of(file)?;
+    let mut dict = newest.clone();
+    let mut sections = 1;
+    loop {
+        let whose = if sections == 1 { "the trailer of the saved revision".to_string() } else { format!("section {} of the chain (offset {})", sections, at) };
+        if let Some(x) = offset_of(&dict, b"XRefStm")? {
+            match section_at(file, x) {
+                Ok((_, true)) if x < at && (sections > 1 || x < rev_start) => {}
+                Ok((_, true)) => return Err(format!("{} has XRefStm {}, which does not lie in an earlier part of the file", whose, x)),
+                Ok((_, false)) => return Err(format!("{} has XRefStm {}, where a cross-reference table stands, not a stream", whose, x)),
+                Err(e) => return Err(format!("{} has XRefStm {}, but there is no cross-reference stream at offset {} ({}; found {})", whose, x, x, e, found_at(file, x))),
+            }
+        }
+        let prev = match offset_of(&dict, b"Prev")? { None => return Ok(sections), Some(p) => p };
+        let (d, _) = section_at(file, prev).map_err(|e| format!("{} has Prev {}, but there is no cross-reference section at offset {} ({}; found {}){}",
+            whose, prev, prev, e, found_at(file, prev), if rev_start == 0 && sections == 1 { "; a plain save is one revision and has nothing for Prev to point to" } else { "" }))?;
+        if sections == 1 {
+            if prev >= rev_start { return Err(format!("{} has Prev {}, which lies inside the revision itself (it starts at {})", whose, prev, rev_start)); }
+            let want = startxref_of(&file[..rev_start]).map_err(|e| format!("the previous revisions: {}", e))?;
+            if prev != want { return Err(format!("{} has Prev {} but the startxref of the previous file is {}", whose, prev, want)); }
+        }
+        if prev >= at { return Err(format!("{} has Prev {}, which does not lie before it: the chain does not end", whose, prev)); }
+        if sections >= 64 { return Err("more than 64 sections".into()); }
+        at = prev;
+        dict = d;
+        sections += 1;
+    }
+}
+
+/// why an incremental update of a file did not give the next file
+pub enum UpErr { Refused(String), Broken(String, String) }
+
+impl From<String> for UpErr { fn from(s: String) -> UpErr { UpErr::Refused(s) } }
+
+/// One incremental update of the file `prev_bytes`, which has `revisions` revisions and gave `prev` when it was loaded: the update rewrites
+/// the lowest-numbered object unchanged and adds one new stream, and is saved on top of the bytes.  The result is itself a
+/// file "produced by saving a document", so it is read strictly before it is handed on: the previous bytes are a prefix,
+/// the appended revision holds exactly the update, and startxref / Prev lead through revisions + 1 sections.
+pub fn update_once(prev_bytes: &[u8], prev: Document, revisions: usize, want_stream: bool) -> Result<Vec<u8>, UpErr> {
+    let rewritten = prev.objects.iter().find(|(_, o)| !is_bookkeeping_object(o)).map(|(id, o)| (*id, o.clone()));
+    let mut inc = IncrementalDocument::create_from(prev_bytes.to_vec(), prev);
+    if let Some((id, o)) = rewritten {
+        inc.new_document.objects.insert(id, o);
+        inc.new_document.max_id = inc.new_document.max_id.max(id.0);
+    }
+    inc.new_document.add_object(Stream::new(Dictionary::new(), format!("% revision {} of this file\n", revisions + 1).into_bytes()));
+    let expect = inc.new_document.clone();
+    let mut out = vec![];
+    match quiet(|| inc.save_to(&mut out)) {
+        Err(p) => return Err(UpErr::Broken("save-no-panic".into(), format!("incremental save on a file of {} revision(s) panicked: {}", revisions, p))),
+        Ok(Err(e)) => return Err(UpErr::Broken("save-ok".into(), format!("incremental save on a file of {} revision(s) to a Vec failed: {}", revisions, e))),
+        Ok(Ok(())) => {}
+    }
+    if !out.starts_with(prev_bytes) { return Err(UpErr::Broken("incremental-prefix".into(), format!("update of a file of {} revision(s): previous bytes are not an unchanged prefix", revisions))); }
+    let mut start = prev_bytes.len();
+    if out.get(start) == Some(&b'\n') && !prev_bytes.ends_with(b"\n") { start += 1; }
+    verify_file(&out, start, &expect, want_stream, revisions + 1)
+        .map_err(|e| UpErr::Broken("strict-reader-incremental".into(), format!("update {} of a file (rewrites the first object, adds a stream): {}", revisions, e)))?;
+    Ok(out)
+}
+
+/// incremental save on top of `base` bytes: prefix preserved, appended revision strictly valid; the base file has
+/// `revisions` revisions (a plain save followed by revisions - 1 updates made by `update_once`)
+pub fn check_incremental(spec: &DocSpec, base_spec: &DocSpec, strip_newline: bool, revisions: usize) -> Result<bool, (String, String)> {
     let mut base_doc = build(base_spec);
     let mut base = vec![];
     base_doc.save_to(&mut base).map_err(|e| ("base-save".to_string(), e.to_string()))?;
+    for r in 1..revisions {
+        let loaded = match Document::load_mem(&base) { Ok(d) => d, Err(e) => return Err(("base-load".into(), format!("base of {} revision(s): {}", r, e))) };
+        base = match update_once(&base, loaded, r, base_spec.xref_stream) {
+            Ok(b) => b,
+            Err(UpErr::Refused(e)) => return Err(("base-load".into(), format!("base of {} revision(s): {}", r, e))),
+            Err(UpErr::Broken(o, d)) => return Err((o, format!("while the base was built: {}", d))),
+        };
+    }
     if !strip_newline { base.push(b'\n'); }
     let prev = match Document::load_mem(&base) { Ok(d) => d, Err(e) => return Err(("base-load".into(), format!("{}", e))) };
     let mut inc = IncrementalDocument::create_from(base.clone(), prev);
@@ -82,17 +249,30 @@ pub fn check_incremental(spec: &DocSpec, base_spec: &DocSpec, strip_newline: boo
     let mut start = base.len();
     if out.get(start) == Some(&b'\n') && !base.ends_with(b"\n") { start += 1; }
     // offsets in the appended revision are absolute file offsets
-    verify_file(&out, start, &expect_doc, want_stream).map_err(|e| ("strict-reader-incremental".to_string(), e))?;
+    verify_file(&out, start, &expect_doc, want_stream, revisions + 1).map_err(|e| ("strict-reader-incremental".to_string(), if revisions > 1 { format!("update of a base of {} revisions: {}", revisions, e) } else { e }))?;
     Ok(true)
 }
 
+/// the files an incremental save is made on top of have 1..=BASE_REVISIONS revisions; `Op::Updates(k)` reloads a document
+/// from a file of k + 1 revisions, k in 1..=MAX_UPDATES
+pub const BASE_REVISIONS: usize = 3;
+pub const MAX_UPDATES: u8 = 3;
+/// first object numbers of `Op::Renumber` (1 is `renumber_objects()`, the others `renumber_objects_with`)
+pub const RENUMBER_STARTS: [u32; 3] = [1, 2, 300];
+
 pub fn strict(thorough: bool) -> Report {
-    let mut rep = Report::new(&format!("all documents of gen::docs (alphabet of 27 leaves + containers, 5 id layouts, both xref formats), each saved to a Vec and to a sink that takes at most 7 bytes per call; incremental: each over 2 bases x newline/no-newline; \
-document histories: the saved document is the one in memory after EVERY sequence of at most {} ({} for the gen::docs bases) library operations that the library accepts, over the alphabet {{reload (save_to + load_mem), compress, decompress, Stream::set_content and Stream::set_plain_content on every stream, \
+    let mut rep = Report::new(&format!("all documents of gen::docs (alphabet of 27 leaves + containers, 5 id layouts, both xref formats), each saved to a Vec and to a sink that takes at most 7 bytes per call; \
+incremental: each over 2 bases per xref format x newline/no-newline x base files of 1..={} revisions (a plain save followed by updates that each rewrite the first object and add a stream; every such base file is itself read strictly); \
+for EVERY file the strict reader also follows the chain of cross-reference sections: startxref, then Prev (and XRefStm) for as long as a section has one, must lead through exactly as many well-formed sections as the file has revisions \
+(none but its own for a plain save, so no Prev), the first Prev being the startxref of the previous file, and Size must exceed every saved object number; \
+document histories: the saved document is the one in memory after EVERY sequence of at most {} ({} for the gen::docs bases) library operations that the library accepts \
+- at most {} ({}) operations when the sequence contains, at any position and any number of times, a structural operation (a reload through updates or a renumbering) - over the alphabet {{reload (save_to + load_mem), \
+reload from the file after k = 1..={} incremental updates (a file of k + 1 cross-reference sections chained by Prev; every intermediate file is read strictly), \
+renumber_objects() and renumber_objects_with(s) for s in {:?}, compress, decompress, Stream::set_content and Stream::set_plain_content on every stream, \
 encrypt with V1 RC4-40 / V2 RC4-128 / V4 RC4 / V4 AESV2 / R5 AESV3 / V5(R6) AESV3 x user password \"user\" or empty (owner \"owner\"), decrypt with \"user\" / \"owner\" / empty}}, applied to {} base documents \
 (both xref formats x plain stream bodies of 0, 1, 15, 16, 17, 32, 255, 256 bytes next to strings, a compressible 400-byte stream, a Metadata stream and a FlateDecode stream, one base without trailer ID; plus {}); \
 after every history (every prefix included) the document is saved plainly and as the update of an incremental save and the strict reader must recover the objects held in memory at that moment",
-        hist_depth(thorough, true), hist_depth(thorough, false), history_bases(thorough).len(), if thorough { "every gen::docs document of the quick family" } else { "the gen::docs documents whose first object is a stream" }), true);
+        BASE_REVISIONS, hist_depth(thorough, true), hist_depth(thorough, false), limits(thorough, true).structural, limits(thorough, false).structural, MAX_UPDATES, &RENUMBER_STARTS[1..], history_bases(thorough).len(), if thorough { "every gen::docs document of the quick family" } else { "the gen::docs documents whose first object is a stream" }), true);
     let specs = docs(thorough);
     for s in &specs {
         match check_doc(s) {
@@ -106,9 +286,11 @@ after every history (every prefix included) the document is saved plainly and as
         if k % step != 0 || s.objects.is_empty() { continue; }
         for b in &bases {
             for strip in [true, false] {
-                match check_incremental(s, b, strip) {
-                    Ok(nt) => rep.case(nt),
-                    Err((ob, d)) => { rep.case(true); rep.fail(&ob, d.clone(), json!({"kind": "incremental", "spec": spec_json(s), "base": spec_json(b), "strip_newline": strip}), d); }
+                for revisions in 1..=BASE_REVISIONS {
+                    match check_incremental(s, b, strip, revisions) {
+                        Ok(nt) => rep.case(nt),
+                        Err((ob, d)) => { rep.case(true); rep.fail(&ob, d.clone(), json!({"kind": "incremental", "spec": spec_json(s), "base": spec_json(b), "strip_newline": strip, "base_revisions": revisions}), d); }
+                    }
                 }
             }
         }
@@ -176,7 +358,7 @@ pub fn replay(v: &Value) -> Result<(), String> {
     }
     if v["kind"] == "incremental" {
         let b = spec_from_json(&v["base"]);
-        check_incremental(&s, &b, v["strip_newline"].as_bool().unwrap_or(true)).map(|_| ()).map_err(|e| format!("{}: {}", e.0, e.1))
+        check_incremental(&s, &b, v["strip_newline"].as_bool().unwrap_or(true), v["base_revisions"].as_u64().unwrap_or(1) as usize).map(|_| ()).map_err(|e| format!("{}: {}", e.0, e.1))
     } else {
         check_doc(&s).map(|_| ()).map_err(|e| format!("{}: {}", e.0, e.1))
     }
@@ -203,7 +385,7 @@ pub enum Cipher { V1Rc4, V2Rc4, V4Rc4, V4AesV2, R5AesV3, V5AesV3 }
 pub enum Pw { User, Owner, Empty }
 
 #[derive(Clone, Copy, Debug, PartialEq)]
-pub enum Op { Reload, Compress, Decompress, SetContent, SetPlain, Encrypt(Cipher, bool), Decrypt(Pw) }
+pub enum Op { Reload, Updates(u8), Renumber(u32), Compress, Decompress, SetContent, SetPlain, Encrypt(Cipher, bool), Decrypt(Pw) }
 
 impl Cipher {
     fn all() -> [Cipher; 6] { [Cipher::V1Rc4, Cipher::V2Rc4, Cipher::V4Rc4, Cipher::V4AesV2, Cipher::R5AesV3, Cipher::V5AesV3] }
@@ -218,7 +400,10 @@ impl Pw {
 
 impl Op {
     pub fn alphabet() -> Vec<Op> {
-        let mut v = vec![Op::Reload, Op::Compress, Op::Decompress, Op::SetContent, Op::SetPlain];
+        let mut v = vec![Op::Reload];
+        for k in 1..=MAX_UPDATES { v.push(Op::Updates(k)); }
+        for s in RENUMBER_STARTS { v.push(Op::Renumber(s)); }
+        v.extend([Op::Compress, Op::Decompress, Op::SetContent, Op::SetPlain]);
         for c in Cipher::all() { for empty_user in [false, true] { v.push(Op::Encrypt(c, empty_user)); } }
         v.extend([Op::Decrypt(Pw::User), Op::Decrypt(Pw::Owner), Op::Decrypt(Pw::Empty)]);
         v
@@ -226,6 +411,9 @@ impl Op {
     pub fn name(self) -> String {
         match self {
             Op::Reload => "reload".into(),
+            Op::Updates(k) => format!("reload from the file after {} incremental update(s)", k),
+            Op::Renumber(1) => "renumber_objects()".into(),
+            Op::Renumber(s) => format!("renumber_objects_with({})", s),
             Op::Compress => "compress".into(),
             Op::Decompress => "decompress".into(),
             Op::SetContent => "set_content".into(),
@@ -234,6 +422,8 @@ impl Op {
             Op::Decrypt(p) => format!("decrypt(\"{}\")", p.text()),
         }
     }
+    /// the operations that change through which cross-reference sections the document came into memory, or how its objects are numbered
+    pub fn is_structural(self) -> bool { matches!(self, Op::Updates(_) | Op::Renumber(_)) }
     pub fn from_name(n: &str) -> Option<Op> { Op::alphabet().into_iter().find(|o| o.name() == n) }
 }
 
@@ -275,12 +465,17 @@ fn quiet<T>(f: impl FnOnce() -> T) -> Result<T, String> {
     })
 }
 
-pub enum Step { Done(Document), Refused, Panicked(String) }
+pub enum Step { Done(Document), Refused, Panicked(String), Broken(String, String) }
 
 /// one library operation on a copy of `doc`; `Refused`: the library returned an error (the sequence is not a history)
 pub fn apply(op: Op, doc: &Document) -> Step {
+    match op {
+        Op::Reload => return reload_family(doc, 0).pop().unwrap(),
+        Op::Updates(k) => return reload_family(doc, k as usize).pop().unwrap(),
+        _ => {}
+    }
     let mut d = doc.clone();
-    let r = quiet(move || -> Result<Document, String> {
+    let r = quiet(move || -> Result<Document, UpErr> {
         let each_stream = |d: &mut Document, f: &dyn Fn(&mut Stream)| -> Result<(), String> {
             let mut n = 0;
             for (_, o) in d.objects.iter_mut() {
@@ -290,11 +485,8 @@ pub fn apply(op: Op, doc: &Document) -> Step {
             if n == 0 { Err("no stream to edit".into()) } else { Ok(()) }
         };
         match op {
-            Op::Reload => {
-                let mut out = vec![];
-                d.save_to(&mut out).map_err(|e| e.to_string())?;
-                Document::load_mem(&out).map_err(|e| e.to_string())
-            }
+            Op::Reload | Op::Updates(_) => unreachable!(),
+            Op::Renumber(s) => { if s == 1 { d.renumber_objects(); } else { d.renumber_objects_with(s); } Ok(d) }
             Op::Compress => { d.compress(); Ok(d) }
             Op::Decompress => { d.decompress(); Ok(d) }
             Op::SetContent => { each_stream(&mut d, &|s| { let mut c = s.content.clone(); c.extend_from_slice(b" %+edit\n"); s.set_content(c); })?; Ok(d) }
@@ -307,7 +499,41 @@ pub fn apply(op: Op, doc: &Document) -> Step {
             Op::Decrypt(p) => { d.decrypt(p.text()).map_err(|e| e.to_string())?; Ok(d) }
         }
     });
-    match r { Ok(Ok(d)) => Step::Done(d), Ok(Err(_)) => Step::Refused, Err(p) => Step::Panicked(p) }
+    match r { Ok(Ok(d)) => Step::Done(d), Ok(Err(UpErr::Refused(_))) => Step::Refused, Ok(Err(UpErr::Broken(o, d))) => Step::Broken(o, d), Err(p) => Step::Panicked(p) }
+}
+
+/// The results of `reload` and of `reload from the file after k incremental updates` for k = 1..=kmax, in this order.
+/// The document is written to a file (save_to); loading that file is `reload`.  The file is then updated incrementally,
+/// each update made from the file before it (`update_once`), and what loading the file after the k-th update gives is the
+/// document of `Updates(k)`: a document that came into memory from k + 1 cross-reference sections chained by Prev.  The
+/// files are shared between the k, which is the only reason for making them together.
+pub fn reload_family(doc: &Document, kmax: usize) -> Vec<Step> {
+    let mut steps: Vec<Step> = vec![];
+    let want_stream = matches!(doc.reference_table.cross_reference_type, XrefType::CrossReferenceStream);
+    let mut d = doc.clone();
+    let mut bytes = vec![];
+    // once a step is not `Done` there is no file to go on from: the longer chains are not histories either
+    let stop = |steps: &mut Vec<Step>, first: Step| { steps.push(first); while steps.len() <= kmax { steps.push(Step::Refused); } };
+    match quiet(|| d.save_to(&mut bytes)) {
+        Ok(Ok(())) => {}
+        Ok(Err(_)) => { stop(&mut steps, Step::Refused); return steps; }
+        Err(p) => { stop(&mut steps, Step::Panicked(p)); return steps; }
+    }
+    for k in 0..=kmax {
+        let loaded = match quiet(|| Document::load_mem(&bytes)) {
+            Ok(Ok(l)) => l,
+            Ok(Err(_)) => { stop(&mut steps, Step::Refused); return steps; }
+            Err(p) => { stop(&mut steps, Step::Panicked(p)); return steps; }
+        };
+        if k < kmax {
+            match quiet(|| update_once(&bytes, loaded.clone(), k + 1, want_stream)) {
+                Ok(Ok(next)) => { bytes = next; steps.push(Step::Done(loaded)); }
+                Ok(Err(e)) => { steps.push(Step::Done(loaded)); stop(&mut steps, match e { UpErr::Refused(_) => Step::Refused, UpErr::Broken(o, t) => Step::Broken(o, t) }); return steps; }
+                Err(p) => { steps.push(Step::Done(loaded)); stop(&mut steps, Step::Panicked(p)); return steps; }
+            }
+        } else { steps.push(Step::Done(loaded)); }
+    }
+    steps
 }
 
 /// diagnosis only (not part of the verdict): streams whose dictionary and body already disagree in memory
@@ -326,7 +552,16 @@ fn length_note(doc: &Document) -> String {
     if first.is_empty() { String::new() } else { format!(" [in memory when save was called, {}{}]", first, if more > 0 { format!("; likewise {} more streams", more) } else { String::new() }) }
 }
 
-pub struct HistBase { pub bytes: Vec<u8>, pub prev: Document, pub spec: DocSpec }
+/// diagnosis only (not part of the verdict): the document's max_id, which the writer sizes the cross-reference section by,
+/// is lower than an object number the document holds
+fn numbering_note(doc: &Document) -> String {
+    match doc.objects.keys().next_back() {
+        Some((n, g)) if *n > doc.max_id => format!(" [in memory when save was called, the document holds object {} {} while its max_id is {}]", n, g, doc.max_id),
+        _ => String::new(),
+    }
+}
+
+pub struct HistBase { pub bytes: Vec<u8>, pub prev: Document, pub spec: DocSpec, pub revisions: usize }
 
 /// the two saves of the document as it is now; Err((obligation, detail))
 pub fn check_state(doc: &Document, inc: Option<&HistBase>) -> Result<(), (String, String)> {
@@ -341,7 +576,7 @@ pub fn check_state(doc: &Document, inc: Option<&HistBase>) -> Result<(), (String
                 Ok(Err(e)) => return Err(("save-ok-after-history".into(), format!("save to a Vec failed: {}", e))),
                 Ok(Ok(())) => {}
             }
-            verify_file(&out, 0, &expect, want_stream).map_err(|e| ("strict-reader-after-history".to_string(), format!("{}{}", e, length_note(&expect))))
+            verify_file(&out, 0, &expect, want_stream, 1).map_err(|e| ("strict-reader-after-history".to_string(), format!("{}{}{}", e, length_note(&expect), numbering_note(&expect))))
         }
         Some(b) => {
             let mut incd = IncrementalDocument::create_from(b.bytes.clone(), b.prev.clone());
@@ -359,7 +594,7 @@ pub fn check_state(doc: &Document, inc: Option<&HistBase>) -> Result<(), (String
             if !out.starts_with(&b.bytes) { return Err(("incremental-prefix".into(), "previous bytes are not an unchanged prefix".into())); }
             let mut start = b.bytes.len();
             if out.get(start) == Some(&b'\n') && !b.bytes.ends_with(b"\n") { start += 1; }
-            verify_file(&out, start, &expect_doc, b.spec.xref_stream).map_err(|e| ("strict-reader-incremental-after-history".to_string(), format!("{}{}", e, length_note(&expect_doc))))
+            verify_file(&out, start, &expect_doc, b.spec.xref_stream, b.revisions + 1).map_err(|e| ("strict-reader-incremental-after-history".to_string(), format!("{}{}{}", e, length_note(&expect_doc), numbering_note(&expect_doc))))
         }
     }
 }
@@ -408,7 +643,20 @@ struct HFail { ops: Vec<Op>, base: usize, incremental: bool, obligation: String,
 #[derive(Default)]
 struct HOut { by_len: [u64; 8], refused: u64, fails: Vec<HFail> }
 
-fn explore(doc: &Document, hist: &mut Vec<Op>, left: usize, base: usize, incs: &[HistBase; 2], out: &mut HOut) {
+/// length bounds of the histories of one base: `structural` for the histories that contain an operation of the structural
+/// group (`Op::is_structural`), `plain` for those that do not
+#[derive(Clone, Copy)]
+pub struct Limits { pub plain: usize, pub structural: usize }
+
+pub fn limits(thorough: bool, purpose_built: bool) -> Limits { let d = hist_depth(thorough, purpose_built); Limits { plain: d, structural: d - 1 } }
+
+/// may `op` be appended to `hist` within the bounds
+fn within(op: Op, hist: &[Op], lim: Limits) -> bool {
+    let structural = op.is_structural() || hist.iter().any(|o| o.is_structural());
+    hist.len() + 1 <= if structural { lim.structural } else { lim.plain }
+}
+
+fn explore(doc: &Document, hist: &mut Vec<Op>, lim: Limits, base: usize, incs: &[HistBase; 2], out: &mut HOut) {
     out.by_len[hist.len()] += 1;
     let inc = &incs[if matches!(doc.reference_table.cross_reference_type, XrefType::CrossReferenceStream) { 1 } else { 0 }];
     let mut failed = false;
@@ -416,15 +664,29 @@ fn explore(doc: &Document, hist: &mut Vec<Op>, left: usize, base: usize, incs: &
         if let Err((obligation, detail)) = r { failed = true; out.fails.push(HFail { ops: hist.clone(), base, incremental, obligation, detail }); }
     }
     // a longer history through a state that already fails adds nothing (and is not minimal)
-    if failed || left == 0 { return; }
-    for op in Op::alphabet() {
-        match apply(op, doc) {
-            Step::Done(nd) => { hist.push(op); explore(&nd, hist, left - 1, base, incs, out); hist.pop(); }
+    if failed { return; }
+    let ops: Vec<Op> = Op::alphabet().into_iter().filter(|op| within(*op, hist, lim)).collect();
+    // reload and the reloads through k updates share their files
+    let kmax = ops.iter().filter_map(|op| match op { Op::Reload => Some(0), Op::Updates(k) => Some(*k as usize), _ => None }).max();
+    let mut family: Vec<Option<Step>> = kmax.map(|k| reload_family(doc, k).into_iter().map(Some).collect()).unwrap_or_default();
+    for op in ops {
+        let step = match op {
+            Op::Reload => family[0].take().unwrap(),
+            Op::Updates(k) => family[k as usize].take().unwrap(),
+            _ => apply(op, doc),
+        };
+        match step {
+            Step::Done(nd) => { hist.push(op); explore(&nd, hist, lim, base, incs, out); hist.pop(); }
             Step::Refused => out.refused += 1,
             Step::Panicked(p) => {
                 let mut h = hist.clone();
                 h.push(op);
                 out.fails.push(HFail { ops: h, base, incremental: false, obligation: "history-no-panic".into(), detail: format!("the last operation of the history panicked: {}", p) });
+            }
+            Step::Broken(obligation, detail) => {
+                let mut h = hist.clone();
+                h.push(op);
+                out.fails.push(HFail { ops: h, base, incremental: false, obligation, detail: format!("a file written inside the last operation of the history: {}", detail) });
             }
         }
     }
@@ -435,7 +697,7 @@ fn hist_base_of(spec: &DocSpec) -> Result<HistBase, String> {
     build(spec).save_to(&mut bytes).map_err(|e| e.to_string())?;
     bytes.push(b'\n');
     let prev = Document::load_mem(&bytes).map_err(|e| e.to_string())?;
-    Ok(HistBase { bytes, prev, spec: spec.clone() })
+    Ok(HistBase { bytes, prev, spec: spec.clone(), revisions: 1 })
 }
 
 fn history_input(spec: &DocSpec, ops: &[Op], incremental: bool, inc_base: &DocSpec) -> Value {
@@ -459,15 +721,16 @@ fn histories(rep: &mut Report, thorough: bool, bases: &[DocSpec]) {
     for i in 0..hb.len() { tasks.push((i, None)); for op in Op::alphabet() { tasks.push((i, Some(op))); } }
     let outs: Vec<HOut> = tasks.par_iter().map(|(i, first)| {
         let (spec, purpose_built) = &hb[*i];
-        let depth = hist_depth(thorough, *purpose_built);
+        let lim = limits(thorough, *purpose_built);
         let mut out = HOut::default();
         let root = build(spec);
         match first {
-            None => explore(&root, &mut vec![], 0, *i, &incs, &mut out),
+            None => explore(&root, &mut vec![], Limits { plain: 0, structural: 0 }, *i, &incs, &mut out),
             Some(op) => match apply(*op, &root) {
-                Step::Done(nd) => explore(&nd, &mut vec![*op], depth - 1, *i, &incs, &mut out),
+                Step::Done(nd) => explore(&nd, &mut vec![*op], lim, *i, &incs, &mut out),
                 Step::Refused => out.refused += 1,
                 Step::Panicked(p) => out.fails.push(HFail { ops: vec![*op], base: *i, incremental: false, obligation: "history-no-panic".into(), detail: format!("the last operation of the history panicked: {}", p) }),
+                Step::Broken(obligation, detail) => out.fails.push(HFail { ops: vec![*op], base: *i, incremental: false, obligation, detail: format!("a file written inside the last operation of the history: {}", detail) }),
             },
         }
         out
@@ -509,6 +772,7 @@ fn replay_history(v: &Value) -> Result<(), String> {
             Step::Done(d) => doc = d,
             Step::Refused => return Ok(()),   // the library no longer accepts this sequence: the recorded failure is gone
             Step::Panicked(p) => return Err(format!("history-no-panic: [{}]: {}", ops_text(&done), p)),
+            Step::Broken(o, d) => return Err(format!("{}: a file written inside the last operation of the history [{}]: {}", o, ops_text(&done), d)),
         }
     }
     let r = if v["save"] == "incremental" {
